@@ -264,6 +264,11 @@ impl<const N: usize> UdpAssociateContext<N> {
                                     break;
                                 },
                             };
+                            // a session belongs to the user who opened it: a datagram of another user that carries its session id is not served here
+                            if self.user.is_some() && self.user != session.user {
+                                warn!("[udp] session {} belongs to another user; client={}, peer={}", session.client_session_id, self.client_addr, peer_addr);
+                                continue;
+                            }
                             if !self.validate_packet_id(session.packet_id) {
                                 // a duplicate or stale packet is dropped; the session goes on
                                 warn!("[udp] packet_id {} out of window; client={}, peer={}", session.packet_id, self.client_addr, peer_addr);
